@@ -121,6 +121,8 @@ type Scenario struct {
 	// All accounts that may sign staking-like transactions (entities + users).
 	Signers []*Account
 	Runtime *registry.Runtime
+	// RuntimeOwner is the entity owning the runtime (runtime support).
+	RuntimeOwner *SimEntity
 	// RuntimeAddr is the staking account of the runtime (runtime support).
 	RuntimeAddr staking.Address
 }
@@ -347,6 +349,13 @@ func (s *Scenario) buildDoc(rng *rand.Rand) *genesis.Document {
 			acct.Escrow.Active.TotalShares = q(esc)
 			st.Delegations[e.Addr] = map[staking.Address]*staking.Delegation{e.Addr: {Shares: q(esc)}}
 			add(&acct.Escrow.Active.Balance)
+			// Some entities charge a commission from genesis on (rewards with commission).
+			if i >= 1 && rng.IntN(2) == 0 {
+				acct.Escrow.CommissionSchedule = staking.CommissionSchedule{
+					Rates:  []staking.CommissionRateStep{{Start: 0, Rate: q(uint64(5_000 + rng.IntN(30_000)))}},
+					Bounds: []staking.CommissionRateBoundStep{{Start: 0, RateMin: q(0), RateMax: q(100_000)}},
+				}
+			}
 
 			var gnodes []*SimNode
 			for _, n := range e.Nodes {
@@ -405,7 +414,8 @@ func (s *Scenario) buildDoc(rng *rand.Rand) *genesis.Document {
 	}
 	st.CommonPool = q([]uint64{0, 3, 1_000_000}[rng.IntN(3)])
 	if p.Reward && rng.IntN(3) != 0 {
-		st.CommonPool = q(1_000_000)
+		// Rewards drain the pool: ample, or small enough to run dry within the history.
+		st.CommonPool = q([]uint64{1_000_000, 1_000_000, 700, 4_000, 20_000}[rng.IntN(5)])
 	}
 	add(&st.CommonPool)
 	st.TotalSupply = *total
